@@ -401,7 +401,19 @@ class AsyncRun:
                 obs.append(self._obs(ss))
         self.graph.stop()
         rec = safe_get_record(self.graph)
+        self.last_executed = self.executed_steps()
         return rec, obs, gs
+
+    def executed_steps(self):
+        """{node: number of steps the node executed in the episode just stopped} = rows kept + rows discarded after max_records
+        was reached (the wrapper's own counters; None if they are not there)"""
+        out = {}
+        for n, w in getattr(self.graph, "_async_nodes", {}).items():
+            try:
+                out[n] = len(w._record_steps) + int(w._discarded)
+            except Exception:  # noqa
+                out[n] = None
+        return out
 
     def _obs(self, ss):
         import numpy as onp
